@@ -261,6 +261,7 @@ def export_query(assertions, tactic, path):
     txt = s.to_smt2()
     if tactic == "nlsat":
         txt = txt.replace("(check-sat)", "(check-sat-using qfnra-nlsat)")
+    txt += "\n(get-model)\n"
     with open(path, "w") as f:
         f.write(txt)
 
@@ -274,9 +275,31 @@ def run_external(path, timeout_s):
     except subprocess.TimeoutExpired:
         return "unknown", time.time() - t0, "timeout"
     first = out[0].strip() if out else ""
-    if any("(error" in l for l in out) or first not in ("sat", "unsat"):
+    errs = [l for l in out if "(error" in l and "model is not available" not in l]
+    if errs or first not in ("sat", "unsat"):
         return "unknown", time.time() - t0, (first or p.stderr.strip())[:200]
-    return first, time.time() - t0, ""
+    return first, time.time() - t0, ("\n".join(out[1:]) if first == "sat" else "")
+
+
+def pins_from_model_text(text, consts):
+    """equalities `c == value` for the given z3 constants, read from the `(get-model)` output of an external z3"""
+    import re
+    decls = {c.decl().name(): c for c in consts}
+    pins = []
+    # (define-fun name () Sort value) possibly spanning lines
+    for m in re.finditer(r"\(define-fun\s+(\|[^|]*\||\S+)\s+\(\)\s+(\(.*?\)|\S+)\s+(.*?)\)\s*(?=\(define-fun|\)\s*$|$)", text, re.S):
+        name = m.group(1).strip("|")
+        if name not in decls:
+            continue
+        c = decls[name]
+        val = m.group(3).strip()
+        try:
+            sort_txt = c.sort().sexpr()
+            e = z3.parse_smt2_string(f"(declare-const x {sort_txt})(assert (= x {val}))", ctx=c.ctx)[0]
+            pins.append(c == e.arg(1))
+        except z3.Z3Exception:
+            continue
+    return pins
 
 
 def to_smt2(assertions, schemas=("pos", "inv", "unit")):
